@@ -167,6 +167,7 @@ class SLE(Equilibrium, phases='ls'):
         if self._nonzero == nonzero:
             index = self._index
             self._chemical = None # Index is only remembered for mixtures
+            self._solute_gamma_index = index.index(solute_index)
         else:
             chemicals = self.chemicals
             # Set up indices for both equilibrium and non-equilibrium species
@@ -225,6 +226,7 @@ class SLE(Equilibrium, phases='ls'):
                 self._solid_mol[solute_index] + self._liquid_mol[solute_index]
             )
             self._index = slice(None)
+            self._nonzero = None # The remembered index no longer applies
             self._update_solubility(solubility)
             if T_given:
                 thermal_condition.T = T
